@@ -220,8 +220,8 @@ func (ss *c11Sess) add(st *VStream, idx int, kind string, pats []string) {
 		}
 	}
 	ss.allPats = append(ss.allPats, pats...)
-	ss.m.AddSet(idx, pats, consts.RoutingDomainKey(kind))
-	st.Emit(strings.TrimRight(fmt.Sprintf("add %d %s %s", idx, kind, strings.Join(toks, " ")), " "), "ok")
+	res := VRecover(func() string { ss.m.AddSet(idx, pats, consts.RoutingDomainKey(kind)); return "ok" })
+	st.Emit(strings.TrimRight(fmt.Sprintf("add %d %s %s", idx, kind, strings.Join(toks, " ")), " "), res)
 }
 
 func (ss *c11Sess) build(st *VStream, stats *VStats) error {
